@@ -416,8 +416,19 @@ class C05:
               ("tuple", tuple(("const", n) for n in names))}
         s_returns = [Event(r.kind, _subst(r.live, ga), _subst(r.term, ga), r.node, r.loops, r.idx) for r in s.returns]
         s_raises = [Event(r.kind, _subst(r.live, ga), _subst(r.term, ga), r.node, r.loops, r.idx) for r in s.raises]
+        # shapely hands out coordinate tuples, never None (trusted): a helper that returns `<shape point> or None` and is
+        # tested with `is not None` is decided by that
+        shape_points = [("sub", ("attr", ("attr", shp, "centroid"), "coords"), ("const", 0)),
+                        ("sub", ("attr", ("call", ("ext", "shapely.point_on_surface"), (shp,), ()), "coords"), ("const", 0)),
+                        ("sub", ("attr", ("call", ("attr", shp, "representative_point"), (), ()), "coords"), ("const", 0)),
+                        ("sub", ("attr", ("call", ("attr", shp, "point_on_surface"), (), ()), "coords"), ("const", 0))]
+        not_none = {}
+        for w_ in shape_points:
+            not_none[("cmp", "isnot", w_, NONE)] = True
+            not_none[("cmp", "is", w_, NONE)] = False
         for p in sorted(want_names):
             env = {pos: p}
+            env.update(not_none)
             outs = []
             for r in s_returns:
                 lv = peval(fold_str_methods(peval(r.live, env)), {})
